@@ -1108,6 +1108,85 @@ def check_delta(ctx, strict_mod, n):
                     ctx.broken("correspondence:c16:delta", "pairs=%s impl=%s model=%s" % (key, (str(md), [str(b) for b in bds]), m and (str(m[0]), [str(b) for b in m[1]])))
 
 
+# ------------------------------------------------------------------ simplex_strict.Simplex: correspondence with the Lean model
+def check_strict_model(ctx, strict_mod, systems, label):
+    """The real `simplex_strict.Simplex` against the Lean model of it (StrictSimplexModel), step by
+    step as for the non-strict solver; values are delta-rationals (x, y)."""
+    rng = ctx.rng("strict-model-" + label)
+    runs, lines = [], []
+    for rows, shape in systems:
+        enc = choose_enc(rng, rows)
+        strict = [rng.random() < 0.4 for _ in rows]
+        s = strict_mod.Simplex()
+        try:
+            s.add_ineqs(*build_ineqs(strict_mod, rows, enc, strict))
+        except Exception as e:  # noqa
+            ctx.count("strict-model:raise:" + type(e).__name__)
+            continue
+
+        def snap():
+            return (sorted(var_id(v) for v in s.basic), {var_id(v): (Fraction(p.x), Fraction(p.y)) for v, p in s.mapping.items()})
+        init = snap()
+        atoms = [("le" if isinstance(a, strict_mod.leq_atom) else "ge", var_id(a.var_name), (Fraction(a[1].x), Fraction(a[1].y))) for a in s.atom]
+        snaps, n = [], [0]
+        orig_check, orig_up, orig_lo = s.check, s.assert_upper, s.assert_lower
+
+        def check():
+            r = orig_check()
+            snaps.append(snap())
+            return r
+
+        def up(x, c):
+            n[0] += 1
+            return orig_up(x, c)
+
+        def lo(x, c):
+            n[0] += 1
+            return orig_lo(x, c)
+        s.check, s.assert_upper, s.assert_lower = check, up, lo
+        try:
+            with time_limit(20):
+                s.handle_assertion()
+            outcome = ("sat",)
+        except Timeout:
+            outcome = ("timeout",)
+        except strict_mod.UNSATException:
+            outcome = ("unsat", var_id(s.wrong_var))
+        except (strict_mod.AssertUpperException, strict_mod.AssertLowerException):
+            outcome = ("conflict", n[0] - 1)
+        except Exception as e:  # noqa
+            ctx.count("strict-model:raise:" + type(e).__name__)
+            continue
+        runs.append((rows, enc, strict, (outcome, atoms, init, snaps)))
+        qs = []
+        for k, r in enumerate(rows):
+            st = strict[k]
+            if enc[k]:
+                qs.append(["ge", [[100 + i, c] for i, c in enumerate(r[:-1]) if c != 0], str(-r[-1]), "1" if st else "0"])
+            else:
+                qs.append(["le", [[100 + i, -c] for i, c in enumerate(r[:-1]) if c != 0], str(r[-1]), "-1" if st else "0"])
+        lines.append(sexp.dumps(["ssimplex", SIMPLEX_FUEL, qs]))
+    out = ctx.lean_driver(EXE, lines) if lines else []
+    ndis = 0
+    for idx, (rows, enc, strict, impl) in enumerate(runs):
+        ctx.case(("strict-model", rows_key(rows), tuple(enc), tuple(strict)), nontrivial=len(impl[3]) >= 2)
+        ctx.count("strict-model:%s:%s" % (label, impl[0][0]))
+        if out is None or impl[0][0] == "timeout":
+            continue
+        x = sexp.loads(out[idx])
+        if x == "bad-op":
+            m = None
+        else:
+            oc = x[0]
+            states = [(sorted(int(b) for b in st[0]), {int(v): (Fraction(a), Fraction(b)) for v, a, b in st[1]}) for st in x[2:]]
+            m = ((oc,) if isinstance(oc, str) else (oc[0], int(oc[1])), [(k, int(v), (Fraction(a), Fraction(b))) for k, v, a, b in x[1]], states[0], states[1:])
+        if m != impl:
+            ndis += 1
+            if ndis <= 3:
+                ctx.broken("correspondence:c16:strict-simplex", "rows=%s enc=%s strict=%s impl=%s model=%s" % (rows, enc, strict, (impl[0],), (m[0] if m else None,)))
+                ctx.coverage["disagreements_checked"] += 1
+
+
 def run_strict(strict_mod, rows, enc, strict):
     s = strict_mod.Simplex()
     try:
@@ -1536,6 +1615,7 @@ def run(ctx):
     rng = ctx.rng("strict")
     sys4 = [gen_system(rng) for _ in range(ctx.scale(800, 5000))]
     check_strict(ctx, simplex_strict, sys4, "random")
+    check_strict_model(ctx, simplex_strict, sys4, "random")
     check_delta(ctx, simplex_strict, ctx.scale(2000, 30000))
     ctx.log("strict simplex stream done (%d)" % len(sys4))
     # 5. proof terms
